@@ -1307,6 +1307,15 @@ class NpModule:
             raise Unsupported("np.unique with options")
         return np_unique(self.eng, v)
 
+    def atleast_1d(self, v, *more):
+        if more:
+            raise Unsupported("np.atleast_1d of several arguments")
+        if isinstance(v, (VArr, SmallArr, SetArr)):
+            return v
+        if isinstance(v, (int, SymInt)) and not isinstance(v, bool):
+            return self.array([v])
+        return self.array(v)
+
     def asarray(self, v, dtype=None, **k):
         if isinstance(v, VArr):
             return v.astype(dtype) if dtype is not None and _dtype_name(dtype) != v.dtype_name else v  # no copy when nothing changes
